@@ -25,6 +25,7 @@ EXPLANATION = (
     "decided: that texts come back byte-identical (libc / heap contents, see C20).")
 
 RULES = {
+    "C10-N": "no integer on this property's data path is narrowed by an implicit conversion (parameter handed to a narrower parameter, stored in a narrower field, or a narrow field behind a wider accessor)",
     "C10-Q1": "ring mutators preserve 0<=wr,rd<size, 0<=count<=size, wr==rd+count (mod size) and touch the right slot, for every capacity",
     "C10-Q2": "slot write guarded by !full, slot reads by !empty; full/empty/count are count==size / count==0 / count",
     "C10-Q3": "overflow arm: release new text, remove newest, release its text, store (-350, NULL), add, return FALSE; caller notifies -350",
@@ -422,6 +423,26 @@ def rule_q3_q5_q6(ck, prog, S, cfg):
     ck.analysed(add, push, pop)
 
 
+def rule_q7(ck, prog, S, rule="C10-Q7"):
+    from . import boundsrules as BR
+    BR.check_function(ck, prog, rule, "OUR_strndup", min_sites=1)
+    # the duplicate is terminated by the function itself: the source need not hold a NUL within the n bytes that may be read
+    g_ = prog.fn("OUR_strndup")
+    pg_ = S.pg(g_)
+    nul_ = [n for n, t in C.stores(g_) if t.k == "ArraySubscriptExpr" and n.get("op") == "=" and C.const_of(n.child(1)) == 0]
+    rets_ = [n for n in g_.nodes.values() if n.k == "ReturnStmt" and n.ch and not C.is_null(n.child(0))]
+    stq = K.site(g_, "duplicate-terminated", 0)
+    if not rets_:
+        ck.anchor_lost(rule, "returning path of OUR_strndup")
+    elif any(pg_.before(r_) in pg_.reachable([pg_.entry], blocked_edge=lambda e: e.kind == "elem" and e.node in nul_) for r_ in rets_):
+        ck.violated(rule, stq, K.loc(g_, rets_[0]),
+                    "OUR_strndup can return a copy it has not terminated itself (strncpy / memcpy do not add a NUL when the source "
+                    "has none within the bytes copied): a text pushed with an explicit length shorter than its string comes back "
+                    "with the following bytes attached")
+    else:
+        ck.holds(rule, stq, K.loc(g_, nul_[0]), "result[len] = 0 on every returning path")
+
+
 def run(ck, fb, tier):
     seen_dup = False
     for cfg in fb.configs:
@@ -432,9 +453,9 @@ def run(ck, fb, tier):
             rule_q1_q2(ck, prog, S)
         rule_q3_q5_q6(ck, prog, S, cfg)
         rule_q4(ck, prog, S, cfg)
+        K.narrowing_rule(ck, prog, "C10-N", lambda f_: f_.relfile.endswith(("error.c", "fifo.c")))
         if prog.fn("OUR_strndup") is not None:
-            from . import boundsrules as BR
-            BR.check_function(ck, prog, "C10-Q7", "OUR_strndup", min_sites=2)
+            rule_q7(ck, prog, S)
             seen_dup = True
     if "E" in fb.configs and not seen_dup:
         ck.anchor_lost("C10-Q7", "OUR_strndup is not compiled in the -std=c89 configuration")
